@@ -249,11 +249,13 @@ pub fn iter_strategy(p: &Profile) -> BoxedStrategy<IterSpec> {
         Just(None).boxed()
     };
     let slots = p.slots;
-    (select(kinds), vec(text_strategy(p.max_text.min(40)), 0..=5), vec(0u8..slots, 0..=3), hint, panic_at)
-        .prop_map(|(kind, items, slots, hint, panic_at)| {
+    let loose = prop_oneof![4 => Just(None), 1 => select(vec![Some(1u16), Some(7), Some(40), Some(1000)])];
+    (select(kinds), vec(text_strategy(p.max_text.min(40)), 0..=5), vec(0u8..slots, 0..=3), hint, panic_at, loose)
+        .prop_map(|(kind, items, slots, hint, panic_at, loose)| {
+            let loose = if hint.is_some() { None } else { loose };
             let slots = if kind == IterKind::LeanSlots { slots } else { vec![] };
             let items = if kind == IterKind::LeanSlots { vec![] } else { items };
-            IterSpec { kind, items, slots, hint, panic_at }
+            IterSpec { kind, items, slots, hint, panic_at, loose }
         })
         .boxed()
 }
@@ -493,7 +495,8 @@ pub mod bytes {
             _ => None,
         };
         let panic_at = if u.ratio(1u8, 4u8).unwrap_or(false) { Some(u.int_in_range(0u16..=8).unwrap_or(0)) } else { None };
-        IterSpec { kind, items, slots, hint, panic_at }
+        let loose = if hint.is_none() && u.ratio(1u8, 5u8).unwrap_or(false) { Some(*u.choose(&[1u16, 7, 40, 1000]).unwrap_or(&7)) } else { None };
+        IterSpec { kind, items, slots, hint, panic_at, loose }
     }
 
     fn pieces(u: &mut Unstructured) -> Pieces {
